@@ -125,4 +125,5 @@ def r03_lower(ctx):
 
 
 def run(ctx):
-    return r03_stack(ctx) + r03_lower(ctx)
+    from runner import collect
+    return collect(ctx, r03_stack, r03_lower)
